@@ -680,4 +680,4 @@ def explain(case, o):
 
 
 def search(tier, seed, disagreeing):
-    return generate('thorough' if tier == 'quick' else 'quick', seed + 1)[:400]
+    return generate('thorough' if tier == 'quick' else 'quick', seed + 1)[:150]
